@@ -354,6 +354,11 @@ func TestSeqMachine(t *testing.T) {
 			if best != nil {
 				ev.Failf(rt, rec, best, "%s\nminimal history found (%d operations): %v\nexecution:\n  %s", bestRes.Violation, len(best.Ops), best.Ops, strings.Join(bestRes.Log, "\n  "))
 			}
+			if r.Stall {
+				// Confirmed on three executions, each costing the whole
+				// watchdog: do not let rapid's shrinking repeat that.
+				best, bestRes = c, r
+			}
 			ev.Failf(rt, rec, c, "%s\nhistory:\n  %s", r.Violation, strings.Join(r.Log, "\n  "))
 		}
 		if r.NonTrivial {
@@ -539,6 +544,9 @@ func TestWorkload(t *testing.T) {
 						ev.Failf(rt, rec, best, "%s [smallest failing workload found: %d streams]", bestRes.Violation, len(best.Streams))
 					}
 				}
+				if r.Stall {
+					best, bestRes = c, r
+				}
 				ev.Failf(rt, rec, c, "%s", v)
 			}
 		}
@@ -589,10 +597,11 @@ func TestTiming(t *testing.T) {
 		"every (scenario kind, releasing event, blocking side, opening side) combination under two fixed configurations (window 4096 / 5 buffers / backlog 3, and window 100 / 1 buffer / backlog 1, 7-byte carrier buffering, fragmented reads); oracle and non-trivial rule as in blocked-calls")
 	sweep.SetExhaustive("scenario kinds x releasing events (39 pairs) x blocking side x opening side x 2 configurations")
 	kinds := []string{"read", "write", "open", "accept", "stall", "backlog", "mass"}
+	idx := -1
 	for _, kind := range kinds {
 		for _, rel := range timingReleases[kind] {
 			for combo := 0; combo < 8; combo++ {
-				if ev.Shards() > 1 && combo%ev.Shards() != ev.Shard()%8 && ev.Shard() < 8 {
+				if idx++; idx%ev.Shards() != ev.Shard() {
 					continue
 				}
 				c := &TimingCase{Kind: kind, Release: rel, Side: combo & 1, Opener: combo >> 1 & 1, PreMs: 10, DMs: 20, N: 1, K: 3}
@@ -620,14 +629,22 @@ func TestTiming(t *testing.T) {
 			}
 		}
 	}
+	var failed *TimingCase
+	var failedMsg string
 	ev.Check(t, rec, 160, 2600, func(rt *rapid.T) {
 		c := genTiming(rt)
+		if failed != nil {
+			// A scenario is a single small case and a confirmed failure
+			// costs three times the bound: skip rapid's shrinking.
+			ev.Failf(rt, rec, failed, "%s", failedMsg)
+		}
 		r := judgeTimingStable(c)
 		rec.Eval()
 		for _, cl := range r.Classes {
 			rec.Class(cl)
 		}
 		if r.Fail != "" {
+			failed, failedMsg = c, r.Fail
 			ev.Failf(rt, rec, c, "%s", r.Fail)
 		}
 		if r.NonTrivial {
